@@ -287,12 +287,12 @@ theorem RObj.get_set (o : RObj) (f g : String) (v : Val) :
 
 /-- what a successful `setattr` did: the class-level check passed, the value was (converted and)
 validated by the descriptor, and only then stored. -/
-theorem assign_ok {o o' : RObj} {f : String} {v : Val} (h : o.assign f v = .ok o') :
+theorem core_ok {o o' : RObj} {f : String} {v : Val} (h : o.assignCore f v = .ok o') :
     nvertsPre o f v = .ok () ∧
     ∃ v', o' = o.set f v' ∧
       ((∃ d, (attrs o.cls).lookup f = some (.descr d) ∧ coerce d v = .ok v' ∧ validate d v' = .ok ()) ∨
        (((attrs o.cls).lookup f = some .plain ∨ (attrs o.cls).lookup f = none) ∧ v' = v)) := by
-  unfold RObj.assign at h
+  unfold RObj.assignCore at h
   cases hn : nvertsPre o f v with
   | error e => rw [hn] at h; cases h
   | ok u =>
@@ -321,16 +321,16 @@ theorem assign_ok {o o' : RObj} {f : String} {v : Val} (h : o.assign f v = .ok o
 theorem coerce_id (d : Descr) (v : Val) (h1 : d ≠ .rmeta) (h2 : d ≠ .rvisual) : coerce d v = .ok v := by
   cases d <;> simp_all [coerce]
 
-/-- **readback**: after an accepted assignment the attribute reads back as the assigned value
+/-- **core_readback**: after an accepted assignment the attribute reads back as the assigned value
 (for `meta` / `visual`: as its `RegionMeta` / `RegionVisual` conversion), every other attribute is
 untouched and the class is unchanged. -/
-theorem readback {o o' : RObj} {f : String} {v : Val} (h : o.assign f v = .ok o') :
+theorem core_readback {o o' : RObj} {f : String} {v : Val} (h : o.assignCore f v = .ok o') :
     o'.cls = o.cls ∧ (∀ g, g ≠ f → o'.get g = o.get g) ∧
     ∃ v', o'.get f = some v' ∧
       (∀ d, (attrs o.cls).lookup f = some (.descr d) → coerce d v = .ok v') ∧
       (∀ d, (attrs o.cls).lookup f = some (.descr d) → d ≠ .rmeta → d ≠ .rvisual → v' = v) ∧
       ((attrs o.cls).lookup f = some .plain ∨ (attrs o.cls).lookup f = none → v' = v) := by
-  obtain ⟨_, v', rfl, hcase⟩ := assign_ok h
+  obtain ⟨_, v', rfl, hcase⟩ := core_ok h
   refine ⟨rfl, fun g hg => by simp [RObj.get_set, hg], v', by simp [RObj.get_set], ?_, ?_, ?_⟩
   · intro d hd
     rcases hcase with ⟨d', hd', hc, _⟩ | ⟨hl, _⟩
@@ -800,10 +800,10 @@ theorem nvertsPre_exception_class {o : RObj} {f : String} {v : Val} {e : Exc}
 
 /-- `setattr` on a descriptor-backed attribute rejects with `ValueError`, `TypeError` or
 `KeyError` – never anything else. -/
-theorem assign_exception_class {o : RObj} {f : String} {v : Val} {d : Descr} {e : Exc}
-    (hl : (attrs o.cls).lookup f = some (.descr d)) (h : o.assign f v = .error e) :
+theorem core_exception_class {o : RObj} {f : String} {v : Val} {d : Descr} {e : Exc}
+    (hl : (attrs o.cls).lookup f = some (.descr d)) (h : o.assignCore f v = .error e) :
     e = .valueError ∨ e = .typeError ∨ e = .keyError := by
-  unfold RObj.assign at h
+  unfold RObj.assignCore at h
   cases hn : nvertsPre o f v with
   | error e' =>
     rw [hn] at h; cases h
@@ -1121,10 +1121,10 @@ theorem coerce_wf (d : Descr) (v v' : Val) (h : coerce d v = .ok v') (hw : metaW
     · rw [coerce_id d v h1 h2] at h; cases h; exact hw
 
 /-- an accepted assignment stores a value of the documented domain. -/
-theorem assign_fieldOk {o o' : RObj} {f : String} {v : Val} (h : o.assign f v = .ok o')
+theorem core_fieldOk {o o' : RObj} {f : String} {v : Val} (h : o.assignCore f v = .ok o')
     (hw : metaWF v = true) (a : Attr) (ha : (attrs o.cls).lookup f = some a) :
     fieldOk o' (f, a) = true := by
-  obtain ⟨_, v', rfl, hcase⟩ := assign_ok h
+  obtain ⟨_, v', rfl, hcase⟩ := core_ok h
   cases a with
   | descr d =>
     rcases hcase with ⟨d', hd', hco, hva⟩ | ⟨hl, _⟩
@@ -1137,9 +1137,9 @@ theorem assign_fieldOk {o o' : RObj} {f : String} {v : Val} (h : o.assign f v = 
 
 /-- an accepted assignment keeps `nvertices >= 3` (checked by `__setattr__` of the regular polygon;
 F14b fixed in 942a7aa). -/
-theorem assign_nvertsOk {o o' : RObj} {f : String} {v : Val} (hv : nvertsOk o = true)
-    (h : o.assign f v = .ok o') (hw : metaWF v = true) : nvertsOk o' = true := by
-  obtain ⟨hpre, v', rfl, hcase⟩ := assign_ok h
+theorem core_nvertsOk {o o' : RObj} {f : String} {v : Val} (hv : nvertsOk o = true)
+    (h : o.assignCore f v = .ok o') (hw : metaWF v = true) : nvertsOk o' = true := by
+  obtain ⟨hpre, v', rfl, hcase⟩ := core_ok h
   by_cases hc : o.cls = .regPolyP ∧ f = "nvertices"
   · obtain ⟨hcls, hf⟩ := hc
     subst hf
@@ -1188,19 +1188,19 @@ theorem assign_nvertsOk {o o' : RObj} {f : String} {v : Val} (hv : nvertsOk o = 
 /-- [F14] the object has inner ≥ outer (the only constraint that assignment does not enforce). -/
 def orderBad (o : RObj) : Bool := !(orderPairs o.cls).all (pairOk o)
 
-theorem assign_valid {o o' : RObj} {f : String} {v : Val} (hv : o.validB = true)
-    (h : o.assign f v = .ok o') (hw : metaWF v = true) (hb : orderBad o' = false) :
+theorem core_valid {o o' : RObj} {f : String} {v : Val} (hv : o.validB = true)
+    (h : o.assignCore f v = .ok o') (hw : metaWF v = true) (hb : orderBad o' = false) :
     o'.validB = true := by
-  obtain ⟨hc, hframe, _⟩ := readback h
+  obtain ⟨hc, hframe, _⟩ := core_readback h
   simp only [orderBad, Bool.not_eq_false', List.all_eq_true] at hb
-  have hnv := assign_nvertsOk ((validB_iff o).mp hv).2.2 h hw
+  have hnv := core_nvertsOk ((validB_iff o).mp hv).2.2 h hw
   rw [validB_iff] at hv ⊢
   refine ⟨?_, hb, hnv⟩
   intro fa hfa
   obtain ⟨g, a⟩ := fa
   rw [hc] at hfa
   by_cases hg : g = f
-  · subst hg; exact assign_fieldOk h hw a (lookup_of_mem (attrs_nodup _) hfa)
+  · subst hg; exact core_fieldOk h hw a (lookup_of_mem (attrs_nodup _) hfa)
   · rw [fieldOk_congr (g, a) (hframe g hg)]; exact hv.1 _ hfa
 
 /-- an accepted `delattr` can only concern an attribute outside the class table. -/
@@ -1224,6 +1224,134 @@ theorem delete_valid {o o' : RObj} {f : String} (hv : o.validB = true)
       · intro a ha; rw [hl] at ha; cases ha
       · intro d hd; rw [hl] at hd; cases hd
     · cases h
+
+/-! ### The full `setattr`: the store, plus the recomputed vertices of a regular polygon -/
+
+theorem params_ne {f : String} (h : regPolyParams.contains f = true) :
+    f ≠ "vertices" ∧ f ≠ "_vertices" := by
+  constructor <;> (intro hf; subst hf; revert h; decide)
+
+/-- `RObj.assign` is the store (`assignCore`), followed – for a defining parameter of a constructed
+regular polygon – by storing the recomputed vertices; if the recomputation raises nothing is kept. -/
+theorem assign_split {o o' : RObj} {f : String} {v : Val} (h : o.assign f v = .ok o') :
+    ∃ o1, o.assignCore f v = .ok o1 ∧
+      (o' = o1 ∨
+       (o.cls = .regPolyP ∧ regPolyParams.contains f = true ∧
+        ∃ d, calcVertices ((o1.get "nvertices").getD vNone) = .ok d ∧
+          o' = (o1.set "_vertices" d).set "vertices" d)) := by
+  unfold RObj.assign at h
+  cases hc : o.assignCore f v with
+  | error e => rw [hc] at h; cases h
+  | ok o1 =>
+    rw [hc] at h
+    simp only at h
+    refine ⟨o1, rfl, ?_⟩
+    split at h
+    · rename_i hcond
+      cases hd : calcVertices ((o1.get "nvertices").getD vNone) with
+      | error e => rw [hd] at h; cases h
+      | ok d =>
+        rw [hd] at h
+        cases h
+        exact Or.inr ⟨hcond.1, hcond.2.1, d, rfl, rfl⟩
+    · cases h; exact Or.inl rfl
+
+theorem calcVertices_ok {nv d : Val} (h : calcVertices nv = .ok d) : inDomain .oneDPix d = true := by
+  unfold calcVertices at h
+  split at h
+  · split at h
+    · cases h; rfl
+    · cases h
+  · cases h
+
+/-- **readback**: after an accepted assignment the attribute reads back as the assigned value (for
+`meta` / `visual`: as its `RegionMeta` / `RegionVisual` conversion) and the class is unchanged;
+every other attribute is untouched – except that a regular polygon recomputes its `vertices`
+(and the private `_vertices`) from its defining parameters. -/
+theorem readback {o o' : RObj} {f : String} {v : Val} (h : o.assign f v = .ok o') :
+    o'.cls = o.cls ∧
+    (∀ g, g ≠ f → g ≠ "vertices" → g ≠ "_vertices" → o'.get g = o.get g) ∧
+    (o.cls ≠ .regPolyP → ∀ g, g ≠ f → o'.get g = o.get g) ∧
+    ∃ v', o'.get f = some v' ∧
+      (∀ d, (attrs o.cls).lookup f = some (.descr d) → coerce d v = .ok v') ∧
+      (∀ d, (attrs o.cls).lookup f = some (.descr d) → d ≠ .rmeta → d ≠ .rvisual → v' = v) ∧
+      ((attrs o.cls).lookup f = some .plain ∨ (attrs o.cls).lookup f = none → v' = v) := by
+  obtain ⟨o1, hc, hcase⟩ := assign_split h
+  obtain ⟨hcls, hframe, v', hg, h1, h2, h3⟩ := core_readback hc
+  rcases hcase with rfl | ⟨hreg, hpar, d, _, rfl⟩
+  · exact ⟨hcls, fun g hg _ _ => hframe g hg, fun _ g hg => hframe g hg, v', hg, h1, h2, h3⟩
+  · obtain ⟨hv1, hv2⟩ := params_ne hpar
+    refine ⟨hcls, ?_, fun hne => absurd hreg hne, v', ?_, h1, h2, h3⟩
+    · intro g hgf hg1 hg2
+      simp only [RObj.get_set, hg1, hg2, if_false]
+      exact hframe g hgf
+    · simp only [RObj.get_set, hv1, hv2, if_false]
+      exact hg
+
+/-- `setattr` on a descriptor-backed attribute rejects with `ValueError`, `TypeError` or
+`KeyError` – never anything else. -/
+theorem assign_exception_class {o : RObj} {f : String} {v : Val} {d : Descr} {e : Exc}
+    (hl : (attrs o.cls).lookup f = some (.descr d)) (h : o.assign f v = .error e) :
+    e = .valueError ∨ e = .typeError ∨ e = .keyError := by
+  unfold RObj.assign at h
+  cases hc : o.assignCore f v with
+  | error e' => rw [hc] at h; cases h; exact core_exception_class hl hc
+  | ok o1 =>
+    rw [hc] at h
+    simp only at h
+    split at h
+    · cases hd : calcVertices ((o1.get "nvertices").getD vNone) with
+      | error e' =>
+        rw [hd] at h; cases h
+        unfold calcVertices at hd
+        left
+        split at hd
+        · split at hd
+          · cases hd
+          · cases hd; rfl
+        · cases hd; rfl
+      | ok d' => rw [hd] at h; cases h
+    · cases h
+
+/-- an accepted assignment (outside F14) keeps the region valid – including the recomputed
+vertices of a regular polygon. -/
+theorem assign_valid {o o' : RObj} {f : String} {v : Val} (hv : o.validB = true)
+    (h : o.assign f v = .ok o') (hw : metaWF v = true) (hb : orderBad o' = false) :
+    o'.validB = true := by
+  obtain ⟨o1, hc, hcase⟩ := assign_split h
+  have hcls1 : o1.cls = o.cls := (core_readback hc).1
+  rcases hcase with rfl | ⟨hreg, _, d, hd, rfl⟩
+  · exact core_valid hv hc hw hb
+  · have hcr : o1.cls = .regPolyP := hcls1.trans hreg
+    have hv1 : o1.validB = true :=
+      core_valid hv hc hw (by simp [orderBad, hcr, orderPairs])
+    have hv2 : (o1.set "_vertices" d).validB = true := by
+      apply valid_of_frame (o := o1) (o' := o1.set "_vertices" d) rfl hv1 "_vertices"
+      · intro g hg; simp [RObj.get_set, hg]
+      · intro a ha
+        have hl : (attrs o1.cls).lookup "_vertices" = none := by rw [hcr]; decide
+        rw [hl] at ha; cases ha
+      · intro d' hd'
+        have hl : (attrs o1.cls).lookup "_vertices" = none := by rw [hcr]; decide
+        rw [hl] at hd'; cases hd'
+    apply valid_of_frame (o := o1.set "_vertices" d) (o' := (o1.set "_vertices" d).set "vertices" d)
+      rfl hv2 "vertices"
+    · intro g hg; simp [RObj.get_set, hg]
+    · intro a ha
+      have hl : (attrs (o1.set "_vertices" d).cls).lookup "vertices" = some (.descr .oneDPix) := by
+        show (attrs o1.cls).lookup "vertices" = _
+        rw [hcr]; decide
+      rw [hl] at ha
+      cases ha
+      simp only [fieldOk, RObj.get_set, if_true]
+      exact calcVertices_ok hd
+    · intro d' hd'
+      have hl : (attrs (o1.set "_vertices" d).cls).lookup "vertices" = some (.descr .oneDPix) := by
+        show (attrs o1.cls).lookup "vertices" = _
+        rw [hcr]; decide
+      rw [hl] at hd'
+      cases hd'
+      exact ⟨by simp, by simp⟩
 
 theorem metaAt_some {o : RObj} {f : String} {m : MetaObj} (h : o.metaAt f = some m) :
     ∃ v, o.get f = some v ∧ m.items = v.items ∧
@@ -1486,8 +1614,8 @@ def ctorWF (c : Cls) (a : CtorArgs) : Bool :=
     | .ok v => metaWF v
     | .error _ => true
 
-theorem assign_cls {o o' : RObj} {f : String} {v : Val} (h : o.assign f v = .ok o') :
-    o'.cls = o.cls := (readback h).1
+theorem core_cls {o o' : RObj} {f : String} {v : Val} (h : o.assignCore f v = .ok o') :
+    o'.cls = o.cls := (core_readback h).1
 
 theorem assignSeq_frame {o o' : RObj} {plan : List (String × Except Exc Val)}
     (h : assignSeq o plan = .ok o') :
@@ -1501,13 +1629,13 @@ theorem assignSeq_frame {o o' : RObj} {plan : List (String × Except Exc Val)}
     | error e => cases h
     | ok vg =>
       simp only at h
-      cases ha : o.assign g vg with
+      cases ha : o.assignCore g vg with
       | error e => rw [ha] at h; cases h
       | ok o1 =>
         rw [ha] at h
         simp only at h
         obtain ⟨hc, hfr⟩ := ih h
-        obtain ⟨hc1, hfr1, _⟩ := readback ha
+        obtain ⟨hc1, hfr1, _⟩ := core_readback ha
         refine ⟨hc.trans hc1, fun f hf => ?_⟩
         simp only [List.map_cons, List.mem_cons, not_or] at hf
         rw [hfr f hf.2, hfr1 f hf.1]
@@ -1517,7 +1645,7 @@ class the assignment was accepted, and the final object still holds what it stor
 theorem assignSeq_get {o o' : RObj} {plan : List (String × Except Exc Val)}
     (h : assignSeq o plan = .ok o') (hn : (plan.map Prod.fst).Nodup) :
     ∀ f ev, (f, ev) ∈ plan → ∃ (v : Val) (o1 o2 : RObj), ev = .ok v ∧ o1.cls = o.cls ∧
-      o1.assign f v = .ok o2 ∧ o'.get f = o2.get f := by
+      o1.assignCore f v = .ok o2 ∧ o'.get f = o2.get f := by
   induction plan generalizing o with
   | nil => intro f ev hm; cases hm
   | cons hd t ih =>
@@ -1528,7 +1656,7 @@ theorem assignSeq_get {o o' : RObj} {plan : List (String × Except Exc Val)}
     | error e => cases h
     | ok vg =>
       simp only at h
-      cases ha : o.assign g vg with
+      cases ha : o.assignCore g vg with
       | error e => rw [ha] at h; cases h
       | ok o1 =>
         rw [ha] at h
@@ -1538,7 +1666,7 @@ theorem assignSeq_get {o o' : RObj} {plan : List (String × Except Exc Val)}
         · cases hm
           exact ⟨vg, o, o1, rfl, rfl, ha, (assignSeq_frame h).2 g hn.1⟩
         · obtain ⟨v, p1, p2, hev, hc, hasg, hget⟩ := ih h hn.2 f ev hm
-          exact ⟨v, p1, p2, hev, hc.trans (assign_cls ha), hasg, hget⟩
+          exact ⟨v, p1, p2, hev, hc.trans (core_cls ha), hasg, hget⟩
 
 /-- the attribute names a constructor stores do not depend on the argument values. -/
 def args0 : CtorArgs := { args := [] }
@@ -1625,7 +1753,7 @@ theorem construct_valid (c : Cls) (a : CtorArgs) (o : RObj) (h : construct c a =
       have hvw : metaWF v = true := by
         have := List.all_eq_true.mp hw (f', .ok v) hmem'
         simpa using this
-      have hfo := assign_fieldOk hasg hvw at' (by rw [hc1']; exact lookup_of_mem (attrs_nodup c) hfa)
+      have hfo := core_fieldOk hasg hvw at' (by rw [hc1']; exact lookup_of_mem (attrs_nodup c) hfa)
       rw [fieldOk_congr (o := o2) (o' := o) (f', at') hg]
       exact hfo
   -- the stored sizes are the arguments themselves
@@ -1635,7 +1763,7 @@ theorem construct_valid (c : Cls) (a : CtorArgs) (o : RObj) (h : construct c a =
     obtain ⟨v, o1, o2, hev, hc1, hasg, hg⟩ := hget f _ (plan_arg c a f d hl hd)
     cases hev
     have hc1' : o1.cls = c := hc1
-    obtain ⟨_, _, v', hg2, _, hid, _⟩ := readback hasg
+    obtain ⟨_, _, v', hg2, _, hid, _⟩ := core_readback hasg
     have hv' : v' = a.arg f :=
       hid d (by rw [hc1']; exact hl) (by rcases hd with rfl | rfl <;> simp)
         (by rcases hd with rfl | rfl <;> simp)
